@@ -1,3 +1,5 @@
+//go:build fam_feedsprice || fam_all
+
 package main
 
 import (
